@@ -39,6 +39,7 @@ type Obligation struct {
 	Pos   string
 	Func  string
 	Smoke bool // vacuity probe: must NOT be provable
+	Loc   string // node/edge the assertion sits on (obligations of one location are first tried in one query)
 }
 
 type Cmd struct {
@@ -106,6 +107,7 @@ type VC struct {
 	ptrFieldSeq int
 	ptrFieldIDs map[string]int
 	implIfaces  map[string]*types.Interface
+	thorough bool
 }
 
 func newVC(p *Prog, rootKey string, loopMods map[string]map[string]bool) *VC {
@@ -211,6 +213,9 @@ func (vc *VC) newObl(name, kind string, tags []string, text string, pos token.Po
 }
 
 func (vc *VC) assertAt(n *Node, f string, ob *Obligation) {
+	if ob.Loc == "" {
+		ob.Loc = fmt.Sprintf("n%d", n.id)
+	}
 	n.cmds = append(n.cmds, Cmd{Assert: true, F: f, Ob: ob})
 }
 
@@ -283,12 +288,12 @@ func (vc *VC) strConst(s string) string {
 
 func (vc *VC) okName(n *Node) string { return smtName(fmt.Sprintf("ok!%d", n.id)) }
 
-func (vc *VC) nodeEquation(n *Node) string {
+func (vc *VC) nodeEquation(n *Node, relevant map[*Node]bool) string {
 	// continuation
 	var conts []string
 	for _, e := range n.out {
 		var q string
-		if e.to != nil {
+		if e.to != nil && (relevant == nil || relevant[e.to]) {
 			q = sImp(sAnd(e.eqs...), vc.okName(e.to))
 		} else {
 			q = "true"
@@ -353,18 +358,57 @@ func (vc *VC) Query(selected map[*Obligation]bool, entry *Node, wantModel bool, 
 			}
 		}
 	}
+	// slicing: only nodes from which a selected assertion is reachable matter; every other node is `true`
+	relevant := map[*Node]bool{}
+	preds := map[*Node][]*Node{}
 	for _, n := range vc.nodes {
-		if n.dead {
+		for _, e := range n.out {
+			if e.to != nil {
+				preds[e.to] = append(preds[e.to], n)
+			}
+		}
+	}
+	var mark func(n *Node)
+	mark = func(n *Node) {
+		if relevant[n] {
+			return
+		}
+		relevant[n] = true
+		for _, p := range preds[n] {
+			mark(p)
+		}
+	}
+	for _, n := range vc.nodes {
+		hit := false
+		for _, c := range n.cmds {
+			if c.Assert && selected[c.Ob] {
+				hit = true
+			}
+		}
+		for _, e := range n.out {
+			for _, c := range e.asserts {
+				if c.Assert && selected[c.Ob] {
+					hit = true
+				}
+			}
+		}
+		if hit {
+			mark(n)
+		}
+	}
+	for _, n := range vc.nodes {
+		if n.dead || !relevant[n] {
 			continue
 		}
 		sb.WriteString(fmt.Sprintf("(declare-const %s Bool)\n", vc.okName(n)))
 	}
 	for _, n := range vc.nodes {
-		if n.dead {
+		if n.dead || !relevant[n] {
 			continue
 		}
-		sb.WriteString(fmt.Sprintf("(assert (= %s %s))\n", vc.okName(n), vc.nodeEquation(n)))
+		sb.WriteString(fmt.Sprintf("(assert (= %s %s))\n", vc.okName(n), vc.nodeEquation(n, relevant)))
 	}
+
 	for _, ob := range vc.obls {
 		if selected[ob] {
 			sb.WriteString("(assert " + ob.Sel + ")\n")
